@@ -3,7 +3,8 @@
    container that is handed over without a copy stops the build. *)
 From Coq Require Import ZArith List Bool.
 From HV Require Import Spec.SmtQuerySpec Model.PathCopyDefs Gen.GenPathCopy Model.SmtTextModel
-  Model.PathHeapModel Proofs.SmtTextProofs Proofs.PathHeapProofs Proofs.PathHeapSim.
+  Model.PathHeapModel Proofs.SmtTextProofs Proofs.PathHeapProofs Proofs.PathHeapSim
+  Proofs.PathHeapSolver Proofs.PathHeapSched.
 Import ListNotations.
 Open Scope Z_scope.
 
@@ -51,4 +52,18 @@ Lemma every_path_query_sem_gen :
 Proof.
   intros cond cond_eqb simp is_true vars cid.
   exact (every_path_query_sem cond cond_eqb simp is_true vars cid gen_modes gen_modes_separate).
+Qed.
+
+Lemma solver_mirrors_running_path_gen :
+  forall (cond : Type) (cond_eqb : cond -> cond -> bool) (simp : cond -> cond)
+         (is_true : cond -> bool) (vars : cond -> list Z) ops s0 h sc,
+    h_run cond cond_eqb simp is_true vars gen_modes (h_init cond s0) ops = Some h ->
+    sched_run cond sched_init ops = Some sc ->
+    exists ps, v_run cond cond_eqb simp is_true vars [empty_path cond s0] ops = Some ps /\
+      forall s i, nth_error (sc_current sc) s = Some i ->
+        exists hp p, nth_error (o_paths h) i = Some hp /\ nth_error ps i = Some p /\ hp_solver hp = s /\
+                     s_assertions cond (nth s (o_solvers h) []) = solver p.
+Proof.
+  intros cond cond_eqb simp is_true vars.
+  exact (solver_mirrors_running_path cond cond_eqb simp is_true vars gen_modes gen_modes_separate).
 Qed.
